@@ -156,6 +156,10 @@ def add_maybe_exponent_stripped(x, y):
 
     # perform branchless for jit etc.
     e = max(xe, ye)
+    if e == float("-inf"):
+        # both terms are exactly zero (``check_zero=True`` early exits),
+        # n.b. the general expression below would evaluate to nan
+        return (xm + ym, e)
     m = xm * 10 ** (xe - e) + ym * 10 ** (ye - e)
 
     return (m, e)
